@@ -73,11 +73,14 @@ def build(rng, facts, name):
     j1 = b.emit("kobs r2"); b.emit("kobs r1", ("same", j1))
     # a concatenation of encodings decodes to the merge of the encoded sketches
     b.knew("o", spec, rng.choice(STORES), rng.choice(STORES), exact); fill(rng, b, "o", rng.choice([1, 4, 20]), False)
-    b.emit("kenc e2 o %d" % rng.choice([0, 1]), "ok"); b.emit("kenc e3 r2 1", "ok")
+    om2 = rng.choice([0, 1]); b.emit("kenc e2 o %d" % om2, "ok"); b.emit("kenc e3 r2 1", "ok")
     b.emit("bcat cat e e2 e3", "ok")
     b.emit("kdec c cat %s %s%s" % (kind, spec, " exact" if exact else ""), "ok")
     b.knew("m", spec, kind, kind, exact); b.kmerge("m", "src"); b.kmerge("m", "o"); b.kmerge("m", "r2")
     j2 = b.emit("kobs m"); b.emit("kobs c", ("same", j2))
+    # the same concatenation read without a mapping from the caller: fine as soon as ONE of the encodings carries it, wherever it sits
+    if omit and om2: b.emit("kdec c2 cat %s nil%s" % (kind, " exact" if exact else ""), "err missing-mapping")
+    else: b.emit("kdec c2 cat %s nil%s" % (kind, " exact" if exact else ""), "ok"); b.emit("kobs c2", ("same", j2))
     return b
 
 def build_wide(rng, name):
